@@ -47,6 +47,18 @@ impl Vertex {
         }
     }
 
+    #[cfg(meshless_voro_verif)]
+    pub(super) fn from_dual_verif(
+        i: usize,
+        j: usize,
+        k: usize,
+        half_spaces: &[HalfSpace],
+        gen_loc: DVec3,
+        dimensionality: Dimensionality,
+    ) -> Self {
+        Self::from_dual(i, j, k, half_spaces, gen_loc, dimensionality)
+    }
+
     fn plane_idx(&self, clipping_plane_idx: usize) -> Option<usize> {
         let mut p_idx = 0;
         while self.dual[p_idx] != clipping_plane_idx {
@@ -321,6 +333,8 @@ impl ConvexCell<WithoutFaces> {
         simulation_boundary: &SimulationBoundary,
     ) -> Self {
         let mut cell = ConvexCell::init(loc, idx, simulation_boundary);
+        #[cfg(meshless_voro_verif)]
+        super::verif::emit(super::verif::Event::CellInit { cell: cell.idx });
         // skip the first nearest neighbour (will be this cell)
         assert_eq!(
             nearest_neighbours.next().expect("Nearest neighbours cannot be empty!").0,
@@ -340,7 +354,17 @@ impl ConvexCell<WithoutFaces> {
             let dx = cell.loc - ngb_loc;
             let dist = dx.length();
             assert!(dist.is_finite() && dist > 0.0, "Degenerate point set!");
+            #[cfg(meshless_voro_verif)]
+            super::verif::emit(super::verif::Event::Visit {
+                cell: cell.idx,
+                ngb: idx,
+                shift: shift.map(|s| s.to_array()),
+                dist,
+                safety_radius: cell.safety_radius,
+            });
             if cell.safety_radius < dist {
+                #[cfg(meshless_voro_verif)]
+                super::verif::emit(super::verif::Event::Terminate { cell: cell.idx });
                 return cell;
             }
             let n = dx / dist;
@@ -367,7 +391,11 @@ impl ConvexCell<WithoutFaces> {
         let mut num_r = 0;
         while i < num_v {
             let mut clip = p.clip(self.vertices[i].loc);
+            #[cfg(meshless_voro_verif)]
+            let verif_filter = clip;
             if clip == 0. {
+                #[cfg(meshless_voro_verif)]
+                super::verif::count_exact_call();
                 // Do the equivalent in-sphere test to determine whether a vertex is clipped
                 let dual = self.vertices[i].dual;
                 let a = simulation_boundary.iloc(self.loc);
@@ -379,6 +407,15 @@ impl ConvexCell<WithoutFaces> {
                     .iloc(self.clipping_planes[dual[2]].right_loc(self.idx, generators));
                 let v = simulation_boundary.iloc(p.right_loc(self.idx, generators));
                 clip = in_sphere_test_exact(&a, &b, &c, &d, &v);
+            }
+            #[cfg(meshless_voro_verif)]
+            if super::verif::tracing() {
+                super::verif::emit(super::verif::Event::ClipTest {
+                    cell: self.idx,
+                    dual: self.vertices[i].dual,
+                    filter: verif_filter,
+                    exact: if verif_filter == 0. { Some(clip) } else { None },
+                });
             }
             if clip < 0. {
                 num_v -= 1;
@@ -398,6 +435,9 @@ impl ConvexCell<WithoutFaces> {
             // Compute the boundary of the (dual) topological triangulated disk around the
             // vertices to be removed.
             Self::compute_boundary(&mut self.boundary, &mut self.vertices[num_v..]);
+            #[cfg(meshless_voro_verif)]
+            let verif_removed: Vec<[usize; 3]> =
+                self.vertices[num_v..].iter().map(|v| v.dual).collect();
             let mut boundary = self.boundary.iter().take(self.boundary.len + 1);
             // finally we can *realy* remove the vertices.
             self.vertices.truncate(num_v);
@@ -415,6 +455,29 @@ impl ConvexCell<WithoutFaces> {
                 cur = next;
             }
             self.update_safety_radius();
+            #[cfg(meshless_voro_verif)]
+            if super::verif::tracing() {
+                super::verif::emit(super::verif::Event::ClipDone {
+                    cell: self.idx,
+                    plane_idx: p_idx,
+                    removed: verif_removed,
+                    cycle: self.boundary.iter().take(self.boundary.len).collect(),
+                    created: self.vertices[num_v..].iter().map(|v| v.dual).collect(),
+                    safety_radius: self.safety_radius,
+                });
+            }
+        } else {
+            #[cfg(meshless_voro_verif)]
+            if super::verif::tracing() {
+                super::verif::emit(super::verif::Event::ClipDone {
+                    cell: self.idx,
+                    plane_idx: self.clipping_planes.len(),
+                    removed: vec![],
+                    cycle: vec![],
+                    created: vec![],
+                    safety_radius: self.safety_radius,
+                });
+            }
         }
     }
 
@@ -438,6 +501,11 @@ impl ConvexCell<WithoutFaces> {
                 }
             }
         }
+    }
+
+    #[cfg(meshless_voro_verif)]
+    pub(super) fn update_safety_radius_verif(&mut self) {
+        self.update_safety_radius()
     }
 
     fn update_safety_radius(&mut self) {
